@@ -79,7 +79,8 @@ def hints_of(deck, rng, count=600):
     return np.array(pts)
 
 
-def run_chunk(case, ctx, out, prop):
+def run_chunk(case, ctx, out, prop, all_decks=False, extra=None,
+              with_points=True):
     '''Judge the example decks classified to `prop` whose rank falls in this
     case's chunk.'''
     rank = 0
@@ -90,7 +91,7 @@ def run_chunk(case, ctx, out, prop):
             out.counters['upstream_not_read'] += 1
             out.counters[f'upstream_not_read:{str(err)[:40]}'] += 1
             continue
-        if classify(deck) != prop:
+        if not all_decks and classify(deck) != prop:
             continue
         rank += 1
         if rank % NCHUNKS != case.index % NCHUNKS:
@@ -112,6 +113,10 @@ def run_chunk(case, ctx, out, prop):
             out.violation('unreadable-file', f'{name}: {fatal[:3]}',
                           mech='c08:' + fatal[0][0])
             continue
+        if not with_points:
+            # this property judges the file and the run's messages only
+            extra(out, deck, None, t4, name, run)
+            continue
         reference = M.Reference(deck)
         sides = probes.Sides(reference, t4)
         loose = getattr(deck, 'rounded_matrices', False)
@@ -121,12 +126,20 @@ def run_chunk(case, ctx, out, prop):
                                  delta=2e-2 if loose else 1e-3)
         judged, discarded, mism = probes.agree(
             sides, pts, eps=1e-2 if loose else 5e-5)
-        out.judged += judged
-        out.discarded += discarded
+        if not all_decks:
+            # (with all_decks the geometry is judged under another property;
+            # only what `extra` judges counts here)
+            out.judged += judged
+            out.discarded += discarded
         out.counters['upstream_probes'] += len(pts)
         labels = set(sides.expected(pts[:2500]))
         out.counters['upstream_regions_seen'] += len(labels)
-        if mism:
+        if extra is not None:
+            extra(out, deck, sides, t4, name, run)
+        if mism and all_decks:
+            # the geometry of this deck is judged under another property
+            out.counters['upstream_region_mismatch_elsewhere'] += 1
+        elif mism:
             out.violation('upstream-region', {
                 'deck': name, 'n_points': len(mism), 'first': mism[:3]},
                 deck_name=name)
